@@ -416,7 +416,7 @@ def run(ctx: Ctx, rep: Report, tier: str) -> None:  # noqa: C901
                     sites.append((f"{f.module.short}.{nm}", u, f.module.consts[nm][0], f))
     stp = ctx.func("helpers.string_to_ports")
     for n in own_nodes(stp.node):
-        if isinstance(n, (ast.ListComp, ast.SetComp)):
+        if isinstance(n, (ast.ListComp, ast.SetComp, ast.GeneratorExp)):
             for g in n.generators:
                 for c in g.ifs:
                     if not any(isinstance(x, ast.Compare) for x in ast.walk(c)):
@@ -433,7 +433,7 @@ def run(ctx: Ctx, rep: Report, tier: str) -> None:  # noqa: C901
             rep.ok(f"{q}: {snippet(n)}", "universe 1..65535", where=where(f, n))
         else:
             rep.violation(q, f"{snippet(n)} = {s_}", "the set of all ports is 1..65535 at every site", where(f, n))
-    rep.floor(3, "port-universe sites")
+    rep.floor(2, "port-universe sites")
 
     # ---------------------------------------------------------------- R08.4 sortedness
     rep.rule("R08.4")
@@ -518,6 +518,7 @@ def run(ctx: Ctx, rep: Report, tier: str) -> None:  # noqa: C901
             rep.ok(f"{ls.qualname}: path storing all four views", "_ports = f(_items), _sport = g(_ports)", where=where(ls))
     numerals_as_text(ctx, rep)
     views_accept_boundaries(ctx, rep)
+    items_view_keeps_operands(ctx, rep)
     validated_is_returned(ctx, rep)
     operand_range(ctx, rep)
     rep.rule("R08.5")
@@ -658,6 +659,30 @@ BOUNDARY_WITNESSES = [
     ("Port.ports.setter", "[]", [], "an expression that denotes no port has the empty port list"),
     ("Port.items.setter", "[]", [], "the empty expression has no operands"),
 ]
+
+
+def items_view_keeps_operands(ctx: Ctx, rep: Report, rid: str = "R08.10") -> None:
+    """Assigning operands through the `items` view re-parses exactly those operands, in the given order and with their
+    multiplicity (`range 53 53` stays a two-operand range): the text handed to the line setter is built from the
+    parameter by an order- and count-preserving map."""
+    from .common import order_of
+
+    rep.rule(rid)
+    f = ctx.func("Port.items.setter")
+    rep.instance()
+    param = f.params[1]
+    comps = [n for n in own_nodes(f.node) if isinstance(n, (ast.ListComp, ast.GeneratorExp)) and any(mentions(g.iter, param) for g in n.generators)]
+    if not comps:
+        rep.note(f"{rid} Port.items setter: no element-wise map of the operands found (not judged)")
+        rep.ok("Port.items setter", "no element-wise map found (not judged)", nontrivial=False, where=where(f))
+        return
+    c = comps[0]
+    state, why = order_of(ctx, f, c.generators[0].iter)
+    filtered = bool(c.generators[0].ifs)
+    if state.startswith("ordered:") and not filtered:
+        rep.ok(f"Port.items setter: {snippet(c, 50)}", f"every operand, in the given order ({why})", where=where(f, c))
+    else:
+        rep.violation("Port.items.setter", snippet(c), f"the operands are re-ordered, de-duplicated or filtered before they are re-parsed ({state}; {why}): assigning an expression's own items back changes it ('range 53 53' loses an operand and is refused)", where(f, c), inp='p = Port("range 53 53", protocol="tcp"); p.items = p.items')
 
 
 def views_accept_boundaries(ctx: Ctx, rep: Report, rid: str = "R08.9") -> None:
